@@ -44,3 +44,98 @@ _selector("xonsh/history/json.py::_xhj_gc_bytes_to_rmfiles", 3, {
                              "fits": "nbytes <= hsize"}),
     "for#2": dict(invariant={"prefix-sum": "bytes_removed == psum(_i)"}),
 })
+
+
+def _small_files(tier, with_ts=False):
+    """bounded native domain: all file lists of length <= L with per-file measure in 0..2"""
+    import itertools
+    L = 3 if tier == "quick" else 4
+    cases = []
+    for n in range(L + 1):
+        for sizes in itertools.product(range(3), repeat=n):
+            files = [(float(10 * i + 1), s, "f%d" % i, s) for i, s in enumerate(sizes)]
+            for hsize in range(0, 2 * L + 2):
+                cases.append({"hsize": hsize, "files": files})
+    return {"cases": cases, "bound": "len(files) <= %d, measure in 0..2, 0 <= hsize <= %d" % (L, 2 * L + 1),
+            "domain": "all such (hsize, files)"}
+
+
+for _c in BY_PROP["C14"]:
+    _c.native_domain = _small_files
+
+# ---- files unit --------------------------------------------------------------------------
+contract(
+    "xonsh/history/json.py::_xhj_gc_files_to_rmfiles", "C14",
+    params=dict(hsize=Int, files=FILES),
+    returns=Tuple(Int, Seq(FileT)),
+    requires={"limit-nonneg": "hsize >= 0"},
+    locals={"rmfiles": FILES},
+    let={"units": "result[0]", "rm": "result[1]", "m": "len(result[1])"},
+    ensures={
+        "prefix": "rm == files[:m]",
+        "fits": "len(files) - m <= hsize",
+        "maximal": "m == 0 or len(files) - (m - 1) > hsize",
+        "within=>nothing": "implies(len(files) <= hsize, m == 0)",
+        "units": "units == m",
+    },
+    native_domain=_small_files,
+    from_property=PROP_TEXT,
+)
+
+
+# ---- seconds unit ------------------------------------------------------------------------
+def _seconds_replay(inputs):
+    import xonsh.history.json as hj
+    now = inputs["now"]
+    real = hj.time.time
+    hj.time.time = lambda: now
+    try:
+        return hj._xhj_gc_seconds_to_rmfiles(inputs["hsize"], inputs["files"])
+    finally:
+        hj.time.time = real
+
+
+def _seconds_domain(tier, seed):
+    import itertools
+    L = 3 if tier == "quick" else 4
+    cases = []
+    for n in range(L + 1):
+        for ts in itertools.combinations_with_replacement(range(0, 5), n):
+            files = [(float(t), 1, "f%d" % i, 1) for i, t in enumerate(ts)]
+            for hsize in range(0, 7):
+                cases.append({"hsize": float(hsize), "files": files, "now": 5.0})
+    return {"cases": cases, "bound": "len(files) <= %d, timestamps in 0..4 (sorted), now=5, hsize 0..6" % L, "domain": "all such"}
+
+
+class _Clock:
+    def __init__(self, now):
+        self._now = now
+
+    def time(self):
+        return self._now
+
+
+contract(
+    "xonsh/history/json.py::_xhj_gc_seconds_to_rmfiles", "C14",
+    params=dict(hsize=Real, files=FILES),
+    returns=Tuple(Real, Seq(FileT)),
+    requires={"limit-nonneg": "hsize >= 0",
+              "sorted-oldest-first": "forall(lambda i, j: implies(i <= j, files[i][0] <= files[j][0]), 0, len(files))"},
+    externals={"time.time": Ext(ret=Real, pure=True, note="ghost clock, constant during the call (A8)")},
+    ghost_inputs={"now": "time.time()"},
+    loops={"for#1": dict(invariant={"count": "n == _i",
+                                    "all-old": "forall(lambda k: time.time() - files[k][0] >= hsize, 0, n)"})},
+    let={"units": "result[0]", "rm": "result[1]", "m": "len(result[1])"},
+    ensures={
+        "prefix": "rm == files[:m]",
+        "fits": "forall(lambda k: time.time() - files[k][0] < hsize, m, len(files))",
+        "maximal": "forall(lambda k: time.time() - files[k][0] >= hsize, 0, m)",
+        "within=>nothing": "implies(forall(lambda k: time.time() - files[k][0] < hsize, 0, len(files)), m == 0)",
+        "units": "units == (time.time() - hsize - files[0][0] if m > 0 else 0)",
+    },
+    replay=_seconds_replay,
+    native_env=lambda inputs: {"time": _Clock(inputs.get("now"))},
+    native_domain=_seconds_domain,
+    assumptions=["A2: timestamps and the seconds limit are real numbers"],
+    from_property=PROP_TEXT + " (seconds: keeps exactly the files younger than the limit)",
+)
